@@ -44,13 +44,15 @@ pub trait ChainStore: Send + Sync + Sized {
         if let Some(block) = self.get_frozen_block(h) {
             return Some(block.into_view());
         }
+        // The read caches are shared by the live store and every snapshot: the header may come
+        // from another reader's lookup while this view was taken before the block was stored
+        // (or after it was deleted). Such a block is not in this view.
         let body = self.get_block_body(h);
-        let uncles = self
-            .get_block_uncles(h)
-            .expect("block uncles must be stored");
-        let proposals = self
-            .get_block_proposal_txs_ids(h)
-            .expect("block proposal_ids must be stored");
+        if body.is_empty() && self.get(COLUMN_BLOCK_HEADER, h.as_slice()).is_none() {
+            return None;
+        }
+        let uncles = self.get_block_uncles(h)?;
+        let proposals = self.get_block_proposal_txs_ids(h)?;
         let extension_opt = self.get_block_extension(h);
 
         let block = if let Some(extension) = extension_opt {
